@@ -62,11 +62,82 @@ func (c *cluster) step(a vAct) {
 	c.stats.steps++
 	recordAction(a)
 	c.tracef("%s", a)
+	switch a.A {
+	case "dlv", "dlvto", "dlvfrom", "dlvpair", "dlvamong", "settle":
+		c.deliveryStep = c.net.gated
+	default:
+		c.deliveryStep = false
+	}
+	c.net.mu.Lock()
+	for k := range c.respInStep {
+		delete(c.respInStep, k)
+	}
+	c.net.mu.Unlock()
 	c.apply(a)
 	synctest.Wait()
 	c.pollInfo()
 	synctest.Wait()
+	if c.blackbox {
+		c.observeBlackbox()
+		return
+	}
 	c.observe()
+}
+
+// observeBlackbox: race tier. Only data handed over through channels, mutexes
+// or tracer callbacks is looked at.
+func (c *cluster) observeBlackbox() {
+	l := c.led
+	for _, e := range c.drainEvents() {
+		if e.dead {
+			continue
+		}
+		switch e.kind {
+		case "state":
+			if e.state == Leader {
+				l.leadersElected++
+				if prev, ok := l.leaderOf[e.term]; ok && prev != e.nid {
+					c.fail("leader-unique", "two-leaders", "term %d has two leaders: node %d and node %d", e.term, prev, e.nid)
+				}
+				l.leaderOf[e.term] = e.nid
+				c.stats.class("leader-elected")
+			}
+		case "election":
+			l.elections++
+		case "compacted":
+			c.stats.class("compaction")
+		case "configChanged":
+			if e.state == Leader {
+				c.stats.class("leader-config-change")
+			}
+		}
+	}
+	for _, id := range c.order {
+		n := c.nodes[id]
+		if n.status != nodeUp || n.infoTask == nil || !taskDone(n.infoTask) {
+			continue
+		}
+		if info, ok := n.infoTask.Result().(Info); ok {
+			cp := info
+			n.sh.info = &cp
+			if info.State == Leader {
+				n.sh.state = Leader
+			} else {
+				n.sh.state = info.State
+			}
+		}
+		n.infoTask = nil
+	}
+	for _, pt := range c.tasks {
+		if pt.done == 0 && taskDone(pt.t) {
+			pt.done = c.stepNo
+			c.stats.class(pt.kind + "-done")
+			if pt.kind == "snap" && pt.t.Err() == nil {
+				c.stats.class("snap-ok")
+			}
+		}
+	}
+	c.checkExits()
 }
 
 func (c *cluster) up(id uint64) *simNode {
@@ -75,6 +146,15 @@ func (c *cluster) up(id uint64) *simNode {
 		return nil
 	}
 	return n
+}
+
+// raftOf reads n.r once: a crash armed at a hook point runs on the node's own
+// goroutine and may clear it while the harness is applying an action.
+func raftOf(n *simNode) *Raft {
+	if n == nil {
+		return nil
+	}
+	return n.r
 }
 
 func (c *cluster) upIDs() []uint64 {
@@ -100,6 +180,12 @@ func (c *cluster) downIDs() []uint64 {
 func (c *cluster) leaders() []uint64 {
 	var out []uint64
 	for _, id := range c.upIDs() {
+		if c.blackbox {
+			if n := c.nodes[id]; n.sh != nil && n.sh.info != nil && n.sh.info.State == Leader {
+				out = append(out, id)
+			}
+			continue
+		}
 		if c.nodes[id].r.state == Leader {
 			out = append(out, id)
 		}
@@ -191,7 +277,8 @@ func (c *cluster) apply(a vAct) {
 			synctest.Wait()
 		}
 	case "poke":
-		if n := c.up(a.N); n != nil {
+		if r := raftOf(c.up(a.N)); r != nil && !c.blackbox {
+			n := struct{ r *Raft }{r}
 			switch a.S {
 			case "", "main":
 				pokeTimer(n.r.timer)
@@ -207,8 +294,8 @@ func (c *cluster) apply(a vAct) {
 		}
 	case "elect":
 		// poke the election timer, then deliver only traffic from/to that node
-		if n := c.up(a.N); n != nil {
-			pokeTimer(n.r.timer)
+		if r := raftOf(c.up(a.N)); r != nil && !c.blackbox {
+			pokeTimer(r.timer)
 			synctest.Wait()
 			h := hostOf(a.N)
 			for i := 0; i < a.K; i++ {
@@ -273,14 +360,16 @@ func (c *cluster) apply(a vAct) {
 	case "xfer":
 		if n := c.up(a.N); n != nil {
 			pt := c.submitTask(n, "xfer", TransferLeadership(a.M, time.Duration(a.T)*time.Millisecond))
-			pt.xferTerm = n.r.term
+			if r := raftOf(n); r != nil && !c.blackbox {
+				pt.xferTerm = r.term
+			}
 		}
 	case "cfg":
 		c.applyCfg(a)
 	case "crash":
 		if a.S == "" {
 			c.crashNow(a.N, a.B)
-		} else if c.up(a.N) != nil {
+		} else if c.up(a.N) != nil && !c.blackbox {
 			k := a.K
 			if k <= 0 {
 				k = 1
@@ -304,6 +393,23 @@ func (c *cluster) apply(a vAct) {
 		c.setHold(a.N, a.S)
 	case "unhold":
 		c.releaseHold(a.N, a.S)
+	case "healthy":
+		// C17: only the listed nodes keep exchanging messages from now on
+		c.healthy = map[uint64]bool{}
+		for _, id := range a.L {
+			c.healthy[id] = true
+		}
+		for _, id := range c.order {
+			if c.healthy[id] {
+				continue
+			}
+			for _, other := range c.order {
+				if other != id {
+					c.net.setCut(hostOf(id), hostOf(other), true)
+					c.net.severBetween(hostOf(id), hostOf(other))
+				}
+			}
+		}
 	case "unholdall":
 		c.releaseAllHolds()
 	case "probe":
@@ -328,9 +434,21 @@ func (c *cluster) applyCfg(a vAct) {
 	if n == nil {
 		return
 	}
-	cfg := n.r.configs.Latest.clone()
-	if a.K > 0 && n.sh.info != nil {
+	var cfg Config
+	if c.blackbox {
+		if n.sh.info == nil {
+			return
+		}
 		cfg = n.sh.info.Configs.Latest.clone()
+	} else {
+		r := raftOf(n)
+		if r == nil {
+			return
+		}
+		cfg = r.configs.Latest.clone()
+		if a.K > 0 && n.sh.info != nil {
+			cfg = n.sh.info.Configs.Latest.clone()
+		}
 	}
 	var err error
 	switch a.S {
@@ -383,8 +501,12 @@ func (c *cluster) pollInfo() {
 			continue // previous one still queued behind a busy handler
 		}
 		t := GetInfo()
+		r := raftOf(n)
+		if r == nil {
+			continue
+		}
 		select {
-		case n.r.taskCh <- t:
+		case r.taskCh <- t:
 			n.infoTask = t
 		default:
 		}
@@ -411,15 +533,19 @@ func (c *cluster) collectInfos() {
 // timeouts, then a probe update and 10 more seconds).
 func (c *cluster) checkConverged() {
 	l := c.led
+	if c.blackbox {
+		return
+	}
 	if l.lastCommittedCfg == nil {
 		return
 	}
 	cfg := *l.lastCommittedCfg
+	ok := func(id uint64) bool { return c.up(id) != nil && (c.healthy == nil || c.healthy[id]) }
 	upVoters, voters := 0, 0
 	for id, nd := range cfg.Nodes {
 		if nd.Voter {
 			voters++
-			if c.up(id) != nil {
+			if ok(id) {
 				upVoters++
 			}
 		}
@@ -428,10 +554,34 @@ func (c *cluster) checkConverged() {
 		c.stats.class("conv-no-majority-up")
 		return
 	}
+	// a configuration takes effect when appended: the premise "a majority of the
+	// voters of the current configuration is healthy" must hold for the latest
+	// configuration of every healthy node as well
+	for _, id := range c.upIDs() {
+		if !ok(id) {
+			continue
+		}
+		lv, lup := 0, 0
+		for vid, nd := range c.nodes[id].r.configs.Latest.Nodes {
+			if nd.Voter {
+				lv++
+				if ok(vid) {
+					lup++
+				}
+			}
+		}
+		if lv > 0 && lup < lv/2+1 {
+			c.stats.class("conv-no-majority-of-latest-config")
+			return
+		}
+	}
 	var ldr *simNode
 	nl := 0
 	for _, id := range c.upIDs() {
 		n := c.nodes[id]
+		if !ok(id) {
+			continue
+		}
 		if n.r.state == Leader {
 			if _, member := n.r.configs.Latest.Nodes[id]; member {
 				ldr = n
@@ -445,7 +595,7 @@ func (c *cluster) checkConverged() {
 		// never campaigns, yet it can hold the longest log and refuse its vote.
 		for id, nd := range cfg.Nodes {
 			n := c.up(id)
-			if n == nil || !nd.Voter {
+			if n == nil || !nd.Voter || !ok(id) {
 				continue
 			}
 			if me, ok := n.r.configs.Latest.Nodes[id]; !ok || !me.Voter {
@@ -479,10 +629,17 @@ func (c *cluster) checkConverged() {
 	}
 	for id := range r.configs.Latest.Nodes {
 		n := c.up(id)
-		if n == nil || id == ldr.id {
+		if n == nil || id == ldr.id || !ok(id) {
 			continue
 		}
 		if n.r.lastLogIndex != r.lastLogIndex || n.r.fsm.index != r.fsm.index {
+			why := "?"
+			if rp := r.ldr.repls[id]; rp != nil {
+				why = fmt.Sprintf("leader's replication status: matchIndex=%d noContact=%v err=%v", rp.status.matchIndex, !rp.status.noContact.IsZero(), rp.status.err)
+			} else {
+				why = "leader has no replication for it"
+			}
+			c.tracef("not caught up: %s", why)
 			c.fail("converge", "node-not-caught-up", "node %d is at last index %d / applied %d, leader %d at %d / %d, 50 virtual seconds after the network was healed", id, n.r.lastLogIndex, n.r.fsm.index, ldr.id, r.lastLogIndex, r.fsm.index)
 			return
 		}
